@@ -68,4 +68,233 @@ proof {
     }
 }
 @end
+
+@raw
+verus! {
+/// index of the first member at or after `from` whose slot is at least `need` bytes (l.len() if none)
+pub open spec fn first_fit(slots: Map<nat, SlotW>, l: Seq<nat>, need: nat, from: int) -> int
+    decreases l.len() - from
+{
+    if from < 0 || from >= l.len() { l.len() as int } else if slots[l[from]].size >= need { from } else { first_fit(slots, l, need, from + 1) }
+}
+pub proof fn lemma_ff_eq(s1: Map<nat, SlotW>, s2: Map<nat, SlotW>, l: Seq<nat>, need: nat, from: int)
+    requires forall|i: int| 0 <= i < l.len() ==> s1[#[trigger] l[i]].size == s2[l[i]].size, 0 <= from
+    ensures first_fit(s1, l, need, from) == first_fit(s2, l, need, from)
+    decreases l.len() - from
+{
+    if from < l.len() { if s1[l[from]].size < need { lemma_ff_eq(s1, s2, l, need, from + 1); } }
+}
+pub proof fn lemma_ff_range(s: Map<nat, SlotW>, l: Seq<nat>, need: nat, from: int)
+    requires 0 <= from <= l.len()
+    ensures from <= first_fit(s, l, need, from) <= l.len(),
+        first_fit(s, l, need, from) < l.len() ==> s[l[first_fit(s, l, need, from)]].size >= need,
+        forall|j: int| from <= j < first_fit(s, l, need, from) ==> s[#[trigger] l[j]].size < need,
+    decreases l.len() - from
+{
+    if from < l.len() { if s[l[from]].size < need { lemma_ff_range(s, l, need, from + 1); } }
+}
+/// which member a pop takes: the head for an exact-size class, first fit on the shared large list
+pub open spec fn pop_idx(w: HeapW, need: nat) -> int {
+    if need >= 1024 { first_fit(w.slots, w.lists[15], need, 0) } else if w.lists[class_idx(need)].len() > 0 { 0 } else { 0 }
+}
+/// result of a pop as a function of the witness
+pub open spec fn pop_post(b0: Seq<u8>, b1: Seq<u8>, pm: PieceMgr, w: HeapW, need: nat, r: nat) -> bool {
+    let c = class_idx(need);
+    let l = w.lists[c];
+    let k = pop_idx(w, need);
+    if k >= l.len() { r == 0 && b1 == b0 }
+    else { r == l[k] && r != 0 && w.slots[r].size >= need && heap_ok(b1, pm, w_unlink(w, c, k)) }
+}
+} // verus!
+@end
+
+@fn src/filedb/inner/vfile.rs | impl VarFile | write_piece_clear
+@serves C06 C18
+@requires
+size.val > 0, size.val % 8 == 0, offset.val + size.val <= old(self)@.bytes.len(), old(self)@.bytes.len() <= 0x3fff_ffff_ffff_ffff,
+rec_size_ok(old(self)@.bytes, offset.val as int), rec_size(old(self)@.bytes, offset.val as int) == size.val || rec_size(old(self)@.bytes, offset.val as int) == 0,
+enc_len((size.val / 8) as nat) <= size.val
+@ensures
+okh(old(self)@, final(self)@, r), final(self).piece_mgr == old(self).piece_mgr,
+r is Ok ==> cleared_at(final(self)@.bytes, offset.val as int, size.val as nat),
+r is Ok ==> frame3(old(self)@.bytes, final(self)@.bytes, offset.val as int, size.val as int, offset.val as int, size.val as int, -8),
+r is Ok ==> final(self)@.unflushed && final(self)@.unsynced
+@entry
+let ghost b0 = old(self)@.bytes;
+let ghost o = offset.val as int;
+let ghost sz = size.val as nat;
+let ghost e1 = vu64_enc(sz / 8);
+proof { axiom_vu64(sz / 8); assert(rd(b0, o, 0) =~= Seq::<u8>::empty()); }
+@after-call write_piece_size 1
+proof { lemma_rec_write(b0, b0, o, Seq::empty(), e1); assert(Seq::<u8>::empty() + e1 =~= e1); }
+@after-call write_zero_to_offset 1
+proof {
+    let z = zeros((sz - e1.len()) as nat);
+    let b1 = write_at(b0, o as nat, e1);
+    if sz > e1.len() { lemma_rec_write(b0, b1, o, e1, z); }
+    assert(rd(self@.bytes, o, sz as int) =~= e1 + z);
+}
+@end
+
+@fn src/filedb/inner/piece.rs | impl VarFile | pop_free_piece_list_large
+@opts rlimit=80
+@serves C06
+@requires
+new_piece_size.val >= 1024, is_slot_size(new_piece_size.val as nat),
+exists|w: HeapW| #[trigger] heap_ok(old(self)@.bytes, old(self).piece_mgr, w),
+free_1st.val as nat == head_at(old(self).piece_mgr, old(self)@.bytes, 15)
+@ensures
+okh(old(self)@, final(self)@, r), final(self).piece_mgr == old(self).piece_mgr,
+r is Ok ==> forall|w: HeapW| #[trigger] heap_ok(old(self)@.bytes, old(self).piece_mgr, w) ==> pop_post(old(self)@.bytes, final(self)@.bytes, old(self).piece_mgr, w, new_piece_size.val as nat, r->Ok_0.val as nat)
+@entry
+let ghost b0 = old(self)@.bytes;
+let ghost f0 = old(self)@;
+let ghost pm = old(self).piece_mgr;
+let ghost need = new_piece_size.val as nat;
+let ghost w0: HeapW = choose|w: HeapW| #[trigger] heap_ok(b0, pm, w);
+let ghost l0 = w0.lists[15];
+let ghost mut i: int = 0;
+let ghost mut bmid = b0;
+proof {
+    assert(head_at(pm, b0, 15) == first(l0));
+    lemma_tiling_len(b0.len(), w0.slots);
+    lemma_ff_range(w0.slots, l0, need, 0);
+}
+@loop 1 invariant
+0 <= i <= l0.len(),
+free_curr.val as nat == (if i < l0.len() { l0[i] } else { 0 }),
+free_prev.val as nat == (if i > 0 { l0[i - 1] } else { 0 }),
+same_but_pos(f0, self@), okh2(f0, self@), self.piece_mgr == pm,
+i <= first_fit(w0.slots, l0, need, 0),
+first_fit(w0.slots, l0, need, 0) == first_fit(w0.slots, l0, need, i)
+@loop 1 decreases
+l0.len() - i
+@loop 1 body-start
+proof {
+    if i >= l0.len() { assert(false); }
+    lemma_member_decodes(b0, pm, w0, 15, i);
+    if i > 0 { lemma_member_decodes(b0, pm, w0, 15, i - 1); }
+}
+@loop 1 body-end
+proof { i = i + 1; }
+@after-call write_free_piece_offset 1
+proof {
+    let p = l0[i - 1] as int;
+    lemma_free_set_next(b0, self@.bytes, p, w0.slots[p as nat].size, l0[i], nxt(l0, i));
+    bmid = self@.bytes;
+}
+@after-call write_free_piece_offset_on_header 1
+proof {
+    let h = pm.free_list_offset@[0] as int + 8 * 15;
+    lemma_le_bytes_len(nxt(l0, i), 8);
+    lemma_write_at_basic(b0, h, le_bytes(nxt(l0, i), 8));
+    lemma_write_le64(b0, h, nxt(l0, i));
+    bmid = self@.bytes;
+}
+@before-call write_piece_clear 1
+proof {
+    // the slot about to be cleared still reads as the same free record
+    let o = l0[i];
+    let sz = w0.slots[o].size;
+    if i > 0 {
+        lemma_list_member(w0.slots, l0, 15, i);
+        lemma_tiling_disjoint(b0.len(), w0.slots, o, l0[i - 1]);
+    }
+    lemma_rd_same(b0, bmid, o as int, sz as int);
+    assert(free_at(bmid, o as int, sz, nxt(l0, i)));
+    lemma_free_decodes(bmid, o as int, sz, nxt(l0, i));
+    axiom_vu64(sz / 8);
+}
+@before-return 1
+proof {
+    let b1 = self@.bytes;
+    let o = l0[i];
+    let sz = w0.slots[o].size;
+    assert(first_fit(w0.slots, l0, need, i) == i);
+    if i > 0 {
+        let p = l0[i - 1]; let psz = w0.slots[p].size;
+        lemma_list_member(w0.slots, l0, 15, i);
+        lemma_tiling_disjoint(b0.len(), w0.slots, o, p);
+        lemma_rd_same(bmid, b1, p as int, psz as int);
+        assert(free_at(b1, p as int, psz, nxt(l0, i)));
+        assert(frame3(b0, b1, o as int, sz as int, p as int, psz as int, -8));
+    } else {
+        let h = pm.free_list_offset@[0] as int + 8 * 15;
+        lemma_rd_same(bmid, b1, h, 8);
+        assert(head_at(pm, b1, 15) == nxt(l0, 0));
+        assert(frame3(b0, b1, o as int, sz as int, o as int, sz as int, h));
+    }
+    assert forall|w: HeapW| #[trigger] heap_ok(b0, pm, w) implies pop_post(b0, b1, pm, w, need, o) by {
+        lemma_list_unique_w(b0, pm, w0, w, 15);
+        lemma_ff_eq(w0.slots, w.slots, l0, need, 0);
+        lemma_member_decodes(b0, pm, w, 15, i);
+        if i > 0 { lemma_member_decodes(b0, pm, w, 15, i - 1); }
+        lemma_unlink(b0, b1, pm, w, 15, i);
+    }
+}
+@exit
+proof {
+    if r__ is Ok {
+        if i < l0.len() { lemma_member_decodes(b0, pm, w0, 15, i); }
+        assert(i == l0.len());
+        assert forall|w: HeapW| #[trigger] heap_ok(b0, pm, w) implies pop_post(b0, self@.bytes, pm, w, need, 0) by {
+            lemma_list_unique_w(b0, pm, w0, w, 15);
+            lemma_ff_eq(w0.slots, w.slots, l0, need, 0);
+        }
+    }
+}
+@end
+
+@fn src/filedb/inner/piece.rs | impl VarFile | pop_free_piece_list
+@opts rlimit=80
+@serves C06
+@requires
+is_slot_size(new_piece_size.val as nat),
+exists|w: HeapW| #[trigger] heap_ok(old(self)@.bytes, old(self).piece_mgr, w)
+@ensures
+okh(old(self)@, final(self)@, r), final(self).piece_mgr == old(self).piece_mgr,
+r is Ok ==> forall|w: HeapW| #[trigger] heap_ok(old(self)@.bytes, old(self).piece_mgr, w) ==> pop_post(old(self)@.bytes, final(self)@.bytes, old(self).piece_mgr, w, new_piece_size.val as nat, r->Ok_0.val as nat)
+@entry
+let ghost b0 = old(self)@.bytes;
+let ghost pm = old(self).piece_mgr;
+let ghost need = new_piece_size.val as nat;
+let ghost c = class_idx(need);
+let ghost w0: HeapW = choose|w: HeapW| #[trigger] heap_ok(b0, pm, w);
+let ghost l0 = w0.lists[c];
+let ghost h = pm.free_list_offset@[0] as int + 8 * c;
+let ghost mut bmid = b0;
+proof {
+    assert(head_at(pm, b0, c) == first(l0));
+    lemma_tiling_len(b0.len(), w0.slots);
+    if l0.len() > 0 { lemma_member_decodes(b0, pm, w0, c, 0); }
+}
+@after-call write_piece_clear 1
+proof { bmid = self@.bytes; }
+@before-call pop_free_piece_list_large 1
+proof { assert(self@.bytes == b0); assert(heap_ok(self@.bytes, self.piece_mgr, w0)); }
+@after-call write_free_piece_offset_on_header 1
+proof {
+    let b1 = self@.bytes;
+    let o = l0[0]; let sz = w0.slots[o].size;
+    lemma_le_bytes_len(nxt(l0, 0), 8);
+    lemma_write_at_basic(bmid, h, le_bytes(nxt(l0, 0), 8));
+    lemma_write_le64(bmid, h, nxt(l0, 0));
+    lemma_rd_same(bmid, b1, o as int, sz as int);
+    assert(cleared_at(b1, o as int, sz));
+    assert(frame3(b0, b1, o as int, sz as int, o as int, sz as int, h));
+    assert forall|w: HeapW| #[trigger] heap_ok(b0, pm, w) implies pop_post(b0, b1, pm, w, need, o) by {
+        lemma_list_unique_w(b0, pm, w0, w, c);
+        lemma_member_decodes(b0, pm, w, c, 0);
+        lemma_unlink(b0, b1, pm, w, c, 0);
+    }
+}
+@exit
+proof {
+    if r__ is Ok && need < 1024 && l0.len() == 0 {
+        assert forall|w: HeapW| #[trigger] heap_ok(b0, pm, w) implies pop_post(b0, self@.bytes, pm, w, need, 0) by {
+            lemma_list_unique_w(b0, pm, w0, w, c);
+        }
+    }
+}
+@end
 @endmod
